@@ -14,6 +14,14 @@ CHECKS = {
                 technique='bounded-exhaustive enumeration of PDU values, differential against an independent length-driven reference codec in both directions',
                 text='the whole C01 grammar plus reference-only encodings (sub-item permutations, unknown sub-items, padded titles) checked against a codec transcribed from PS3.8/PS3.7',
                 note='trusts vp/ref_pdu.py (self-tested: parse(build(t)) == t on every case)'),
+    'C06': dict(engine='E1', level='exploration', design_ref='DESIGN.md 3/C06',
+                technique='bounded-exhaustive enumeration of (message class, data-set length, maximum PDU length, context id, source kind) on the real Association.send, oracle = reference fragmentation rules + reference codecs',
+                text='every length 1..3F+2 for every maxlen 7..40 and every +-2 neighbourhood of kF at 2^k boundaries up to 2^32-1, for bytes / BytesIO / real file sources; complete within the grids',
+                note='sizes capped at 200 kB; trusts vp/ref_cmd.py and vp/ref_pdu.py'),
+    'C08': dict(engine='E1', level='exploration', design_ref='DESIGN.md 3/C08',
+                technique='bounded-exhaustive enumeration of field values and of repeated-send operation sequences on the real Association.send, command sets parsed by an independent implicit-VR-LE reader',
+                text='23 classes x UID lengths 1..64 x numeric boundary grid x every subset of unset fields x every sequence of <=2/3 changes between sends; complete within the grids',
+                note='trusts vp/ref_cmd.py (PS3.7 E.1 dictionary); stub provider records the generator handed to dul.send'),
     'C18': dict(engine='E1', level='exploration', design_ref='DESIGN.md 3/C18',
                 technique='exhaustive enumeration of all 65536 codes x 24 command classes + all add_status operation sequences to depth 2/3 against a reference dict model',
                 text='complete enumeration of the finite input space (1.57 M Status constructions) and of every add_status history up to the depth bound; nothing is sampled',
